@@ -200,3 +200,5 @@ def run(chk):
     chk.notes["n_range"] = [1, nmax]
     chk.notes["mode"] = "tables of symbolic bits; loops unrolled for each concrete n (mode=unrolled)"
     chk.floor("C03.entry-points", len([1 for k in ("dyn", "static") for m in ("flip_inplace", "flip", "swap_inplace", "swap", "swap_adjacent_inplace", "swap_adjacent", "cofactors", "from_cofactors") if m in env.kinds[k].methods]), 16)
+    from ..history import history_rule
+    history_rule(chk, "C03.H", F.load("dbg"))
